@@ -223,11 +223,21 @@ func runErrCtor(r *core.Run) {
 }
 
 func offsetDerivedR(r *core.Run, v ssa.Value, depth int) bool {
-	if depth > 5 {
+	return offsetDerivedV(r, v, depth, map[ssa.Value]bool{})
+}
+
+func offsetDerivedV(r *core.Run, v ssa.Value, depth int, onPath map[ssa.Value]bool) bool {
+	if depth > 8 {
 		return false
 	}
+	offsetDerivedR := func(r *core.Run, w ssa.Value, d int) bool { return offsetDerivedV(r, w, d, onPath) }
 	switch x := v.(type) {
 	case *ssa.Phi:
+		if onPath[v] {
+			return true // a loop-carried value: decided by its other operands
+		}
+		onPath[v] = true
+		defer delete(onPath, v)
 		for _, e := range x.Edges {
 			if e == v {
 				continue
@@ -245,12 +255,17 @@ func offsetDerivedR(r *core.Run, v ssa.Value, depth int) bool {
 		if !ok {
 			return false
 		}
+		n := 0
 		for _, a := range args {
+			if c, ok := a.(*ssa.Const); ok && ssaIntConst(c) && c.Int64() == 0 {
+				continue // "not set yet": replaced by a cursor offset before it is stored (the phi case above)
+			}
+			n++
 			if !offsetDerivedR(r, a, depth+1) {
 				return false
 			}
 		}
-		return true
+		return n > 0
 	}
 	for a, cf := range linOf(v).T {
 		if strings.HasSuffix(a, ".Offset()") && cf == 1 {
